@@ -74,7 +74,7 @@ RECURSIVE Acts(_, _, _)
 Acts(w, ids, i) ==
     IF i > Len(ids) THEN w
     ELSE LET e == evs[ids[i]] IN
-         IF e.act = "throttle"
+         IF e.act \in {"throttle", "reconfig"}     \* reconfig: also replaces path set, watcher kind, error handler
          THEN Acts(Emit([w EXCEPT !.throttle = e.arg], Ev("throttle", 0, 0, "", "", e.arg)), ids, i + 1)
          ELSE IF e.act \in {"quit", "gquit"}
          THEN Acts(Emit([w EXCEPT !.quit = e.act],
